@@ -185,6 +185,8 @@ pub enum Op {
     Extend { slot: Slot, it: IterSpec },
     AddAssign { slot: Slot, text: Text },
     Write { slot: Slot, d: Pieces },
+    /// write!(slot, <format spec number `spec`>, other handle): a LeanString as a formatting argument
+    WriteArg { slot: Slot, from: Slot, spec: u8 },
     // ---- readers
     Compare { a: Slot, b: Slot },
 }
@@ -226,6 +228,7 @@ impl Op {
             Op::Extend { .. } => "extend",
             Op::AddAssign { .. } => "add_assign",
             Op::Write { .. } => "write",
+            Op::WriteArg { .. } => "write_arg",
             Op::Compare { .. } => "compare",
         }
     }
@@ -264,7 +267,8 @@ impl Op {
             | Op::ShrinkToFit { slot, .. }
             | Op::Extend { slot, .. }
             | Op::AddAssign { slot, .. }
-            | Op::Write { slot, .. } => vec![slot],
+            | Op::Write { slot, .. }
+            | Op::WriteArg { slot, .. } => vec![slot],
             Op::Take { slot, from } => vec![slot, from],
             Op::Swap { a, b } => vec![a, b],
             Op::Compare { .. } => vec![],
@@ -318,7 +322,8 @@ impl Op {
             | Op::ShrinkToFit { slot, .. }
             | Op::Extend { slot, .. }
             | Op::AddAssign { slot, .. }
-            | Op::Write { slot, .. } => *out = slot,
+            | Op::Write { slot, .. }
+            | Op::WriteArg { slot, .. } => *out = slot,
             Op::Take { slot, .. } => *out = slot,
             Op::Swap { a, .. } | Op::Compare { a, .. } => *out = a,
         }
@@ -342,7 +347,8 @@ impl Op {
             | Op::ShrinkToFit { slot, .. }
             | Op::Extend { slot, .. }
             | Op::AddAssign { slot, .. }
-            | Op::Write { slot, .. } => Some(slot),
+            | Op::Write { slot, .. }
+            | Op::WriteArg { slot, .. } => Some(slot),
             _ => None,
         }
     }
